@@ -18,11 +18,11 @@ func init() {
 		Cases: func(tier string) int {
 			switch tier {
 			case "thorough":
-				return 400000
+				return 1200000
 			case "race":
 				return 6000
 			}
-			return 80000
+			return 110000
 		},
 		Run:            c05Run,
 		Floor:          func(tier string) int { return 2000 },
